@@ -13,7 +13,7 @@ use crate::audit::{StoreView, id_hex};
 use crate::common;
 use crate::harness::{Env, Prop, Report, Tier};
 use crate::interpose;
-use crate::model::{Entry, FsModel, GenParams, Kind, PathKey, ReadPlan, edit_model, key_of, show_key};
+use crate::model::{Entry, FsModel, GenParams, Kind, PathKey, ReadPlan, default_entry, edit_model, key_of, show_key};
 use crate::props::c01::build_model_min;
 use crate::readback::{ReadBack, ReadBackOpts, list_snapshot, read_back};
 use crate::rng::{Rng, hash64};
@@ -88,7 +88,60 @@ fn glob_matches(glob: &str, name: &[u8]) -> bool {
 }
 
 fn excluded(k: &PathKey, globs: &[String]) -> bool {
-    k.iter().any(|c| globs.iter().any(|g| glob_matches(g, c)))
+    globs.iter().any(|g| match g.strip_prefix('/') {
+        // anchored literal path: the entry itself and everything below it
+        Some(path) => {
+            let comps: Vec<&[u8]> = path.split('/').map(str::as_bytes).collect();
+            k.len() >= comps.len() && comps.iter().zip(k.iter()).all(|(a, b)| *a == b.as_slice())
+        }
+        None => k.iter().any(|c| glob_matches(g, c)),
+    })
+}
+
+/// Adds directories `pairA` and `pairB` (names made unique) with identical content and metadata:
+/// files, a sub-directory with a file. Returns paths inside `pairA` suitable for an anchored exclude.
+fn add_twin_dirs(rng: &mut Rng, model: &mut FsModel, now_s: i64) -> Vec<PathKey> {
+    let mut a: Vec<u8> = b"pairA".to_vec();
+    let mut b: Vec<u8> = b"pairB".to_vec();
+    while model.entries.contains_key(&vec![a.clone()]) || model.entries.contains_key(&vec![b.clone()]) {
+        a.push(b'_');
+        b.push(b'_');
+    }
+    let dir = default_entry(rng, Kind::Dir, now_s);
+    let sub = default_entry(rng, Kind::Dir, now_s);
+    let mut files: Vec<(Vec<Vec<u8>>, Entry)> = vec![];
+    let nfiles = rng.range(1, 3) as usize;
+    for i in 0..nfiles {
+        let name = [&b"secret.txt"[..], b"keep.bin", b"notes.log"][i].to_vec();
+        let len = *rng.pick(&[0usize, 1, 300, 5000, 20_000]);
+        let data = rng.bytes(len);
+        let mut e = default_entry(rng, Kind::File(std::sync::Arc::new(data)), now_s);
+        e.inode = 900_000 + i as u64;
+        files.push((vec![name], e));
+    }
+    let data = rng.bytes(700);
+    let mut e = default_entry(rng, Kind::File(std::sync::Arc::new(data)), now_s);
+    e.inode = 900_010;
+    files.push((vec![b"sub".to_vec(), b"inner.txt".to_vec()], e));
+    let mut picks = vec![];
+    for top in [&a, &b] {
+        let _ = model.entries.insert(vec![top.clone()], dir.clone());
+        let _ = model.entries.insert(vec![top.clone(), b"sub".to_vec()], sub.clone());
+        for (rel, e) in &files {
+            let mut k = vec![top.clone()];
+            k.extend(rel.iter().cloned());
+            let _ = model.entries.insert(k, e.clone());
+        }
+    }
+    for (rel, _) in &files {
+        let mut k = vec![a.clone()];
+        k.extend(rel.iter().cloned());
+        picks.push(k);
+    }
+    picks.push(vec![a.clone(), b"sub".to_vec()]);
+    // also the other twin, so that both visiting orders are exercised
+    picks.push(vec![b.clone(), files[0].0[0].clone()]);
+    picks
 }
 
 /// find the snapshot in `listed` that corresponds to a source snapshot (same tree and time)
@@ -113,7 +166,7 @@ impl Prop for C12 {
         "one kind per run on a repository holding 2-4 snapshots of an evolving source (edit scripts incl. type changes by re-generation, tree-colliding content, shared blobs). \
          copy: into a destination with another key, version/compression, pack sizes, same or different chunker, empty or already holding some of the snapshots, copying a seeded subset then the rest: every copied snapshot reads back in the destination equal to its source model, destination check(read_data) clean. \
          merge: 2-4 snapshots under last_modified_node or oldest-wins; the merged snapshot reads back equal to a reference merge on the models (per name the winner by the ordering; if the winner is a directory all directory candidates are merged recursively); runs with ambiguous ties are skipped. \
-         rewrite: exclude sets from a plain grammar (!*.ext, !basename); result equals the model minus matches, everything else bit-identical incl. metadata; with forget the original is gone, without both exist; an exclude set that matches nothing writes nothing. \
+         rewrite: exclude sets from a plain grammar (!*.ext, !basename, !/anchored/path of an entry; in half of the runs the source holds two directories with identical subtrees - one tree blob under two paths - and an exclude anchored inside one of them); result equals the model minus matches, everything else bit-identical incl. metadata; with forget the original is gone, without both exist; an exclude set that matches nothing writes nothing. \
          repair: on an undamaged repository repair_snapshots writes nothing; after losing one data or tree pack (then repair_index, as documented) every file the repaired snapshot keeps under its own name has exactly its original content, and the repaired snapshot reads completely. \
          evaluations = snapshots compared; non-trivial = copy moved >= 1 pack / merge inputs overlap in >= 1 name with differing entries / rewrite removed >= 1 entry / repair marked >= 1 file; distinct = hash(kind, models, options)"
     }
@@ -183,6 +236,12 @@ impl Prop for C12 {
         let plan = ReadPlan { frag: vec![0, 4097], eintr_every: 0, gate_reads_every: 0 };
         // ---------- source snapshots
         let mut model = build_model_min(&s.gen, s.model_seed, &[], s.start_s, 3);
+        let mut twin_paths: Vec<PathKey> = vec![];
+        if s.kind == "rewrite" && rng.chance(1, 2) {
+            // two directories with identical subtrees (one tree blob reachable under two paths), so that an
+            // exclude anchored at one path must not touch the other
+            twin_paths = add_twin_dirs(&mut rng, &mut model, s.start_s);
+        }
         let mut snaps: Vec<(SnapshotFile, FsModel)> = vec![];
         for g in 0..s.nsnaps {
             if g > 0 {
@@ -337,8 +396,20 @@ impl Prop for C12 {
                 // exclude set from the plain grammar
                 let mut globs: Vec<String> = vec![];
                 let names: Vec<Vec<u8>> = snaps[0].1.entries.keys().filter_map(|k| k.last().cloned()).collect();
+                if !twin_paths.is_empty() {
+                    // anchored at one twin only
+                    let k = &twin_paths[rng.usize(twin_paths.len())];
+                    globs.push(format!("/{}", k.iter().map(|c| String::from_utf8_lossy(c).to_string()).collect::<Vec<_>>().join("/")));
+                    rep.fire("anchored_exclude_inside_a_twin_directory", 1);
+                }
+                let keys: Vec<&PathKey> = snaps[0].1.entries.keys().collect();
                 for _ in 0..rng.range(1, 3) {
-                    match rng.usize(4) {
+                    match rng.usize(6) {
+                        4 | 5 if !keys.is_empty() => {
+                            // anchored path of an existing entry
+                            let k = keys[rng.usize(keys.len())];
+                            globs.push(format!("/{}", k.iter().map(|c| String::from_utf8_lossy(c).to_string()).collect::<Vec<_>>().join("/")));
+                        }
                         0 => globs.push("*.txt".into()),
                         1 => globs.push("*.log".into()),
                         2 if !names.is_empty() => {
